@@ -4,6 +4,7 @@ package main
 // known findings, baseline comparison, replay, evidence.
 
 import (
+	"os/exec"
 	"go/types"
 	"sync"
 	"encoding/json"
@@ -228,6 +229,7 @@ func cmdCheck(args []string) int {
 	nocache := fs.Bool("nocache", false, "ignore the verdict cache")
 	mut := fs.String("mut", "", "overlay mutation (selftest): relpath::old::new")
 	quiet := fs.Bool("q", false, "less output")
+	noEvidence := fs.Bool("noevidence", false, "do not write the evidence file (selftest runs on mutated sources)")
 	id := ""
 	if len(args) > 0 && !strings.HasPrefix(args[0], "-") {
 		id = args[0]
@@ -565,9 +567,11 @@ func cmdCheck(args []string) int {
 	ev := buildEvidence(id, *tier, seed, ps, reports, funcReports, funcOrder, required, discharged, solverTime, backends, fromCache, undecided, violations, known, knownHit, assumptions, abstracted, unsupported, missing, wall, loadS, timeout, e)
 	os.MkdirAll(filepath.Join(*verif, "evidence"), 0o755)
 	data, _ := json.MarshalIndent(ev, "", " ")
-	if err := os.WriteFile(filepath.Join(*verif, "evidence", id+".json"), data, 0o644); err != nil {
-		fmt.Fprintln(os.Stderr, "engine error: evidence:", err)
-		return 2
+	if !*noEvidence {
+		if err := os.WriteFile(filepath.Join(*verif, "evidence", id+".json"), data, 0o644); err != nil {
+			fmt.Fprintln(os.Stderr, "engine error: evidence:", err)
+			return 2
+		}
 	}
 	if *writeBaseline {
 		var names []string
@@ -619,6 +623,7 @@ func oblOK(r Result) bool {
 }
 
 var sweepNote []string
+var thoroughSelftest string
 
 func nonNil(s []string) []string {
 	if s == nil {
@@ -727,6 +732,7 @@ func buildEvidence(id, tier string, seed int, ps *PropertySpec, reports []oblRep
 		"slow_obligations":         slow,
 		"not_decided":              ps.NotDecided,
 		"sweep_not_shown_safe":     nonNil(sweepNote),
+		"selftest":                 thoroughSelftest,
 		"violating_obligations":    nonNil(violations),
 		"evaluations":              len(reports),
 		"distinct_nontrivial":      len(reports),
